@@ -5,6 +5,7 @@ import Hive.Proofs.EventsMax
 import Hive.Proofs.EventsIter
 import Hive.Proofs.Events
 import Hive.Proofs.EventsLink
+import Hive.Proofs.EventsCount
 import Hive.Spec.Events
 import Hive.Gen.C15_Skel
 /-!
@@ -245,6 +246,29 @@ example :
   decide
 
 end link
+
+/-! ## trigger limits over sequential histories -/
+section seqcount
+open Hive.Events Hive.EventsMax
+
+/-- **C15, max trigger count (all sequential histories, including `LinkTo` and nested triggers).**
+After any history every hook has been invoked exactly `min(limit, number of triggers that reached
+it)` times and every event has let exactly `min(limit, number of its Trigger calls)` through
+(`fired` / `passed` are ghost counters bumped at the invocation sites of the model). -/
+theorem C15_max_trigger_count_seq (ops : List Op) :
+    (∀ (k : Nat) (hk : Hook), (final init ops).hooks[k]? = some hk → hk.fired = minLim hk.max hk.count) ∧
+    (∀ (e : Nat) (ev : Ev), (final init ops).evs[e]? = some ev → ev.passed = minLim ev.max ev.count) :=
+  ⟨(count_final ops).hook, (count_final ops).ev⟩
+
+/-- Non-vacuity: a hook limited to 2 on an event limited to 3, five triggers. -/
+example :
+    let s := final init [.new 3, .hook 0 2 false, .hook 0 0 false, .trigger 0 1, .trigger 0 2, .trigger 0 3,
+      .trigger 0 4, .trigger 0 5]
+    s.hooks.map (fun h => (h.count, h.fired, h.attached)) = [(3, 2, false), (3, 3, true)] ∧
+    s.evs.map (fun e => (e.count, e.passed)) = [(5, 3)] := by
+  decide
+
+end seqcount
 
 /-! ## value notifier -/
 section notifier
